@@ -19,8 +19,8 @@ OBLIGATIONS = [
 ]
 TRUSTED = ["hand-written model SkVerif/Model/Metrics.lean of _functions.py / _classes.py over exact rationals",
            "numpy (np.average, np.median, np.where, broadcasting), scipy gmean, sklearn _weighted_percentile / mean_absolute_error / "
-           "median_absolute_error / mean_squared_error as black boxes; sklearn 0.24's mean_squared_error(squared=False) "
-           "(root per output column, then average) emulated module-scoped in this file on top of skcompat.patch_metrics",
+           "median_absolute_error / mean_squared_error as black boxes (sklearn 0.24 semantics of the private "
+           "_check_reg_targets signature and of mean_squared_error(squared=False) come from skcompat.patch_metrics)",
            "np.sqrt / exp-log geometric mean are compared through radicand + root degree (the float root is taken by the harness)"]
 ASSUMPTIONS = ["exact arithmetic: theorems are over Rat and say nothing about float rounding; inputs are dyadic rationals",
                "horizon weights and multioutput weights are >= 0 (negative weights: weighted percentile undefined, outside the model)",
@@ -69,18 +69,11 @@ _FMOD = None
 
 
 def _mod():
-    """the real module, with sklearn 0.24's `mean_squared_error(squared=False)` semantics restored
-    (RMSE per output column, then averaged).  skcompat.patch_metrics takes the root of the averaged MSE, which is the
-    behaviour of sklearn < 0.24; sktime 0.6.0 pins scikit-learn 0.24."""
+    """the real module (skcompat.patch_metrics restores sklearn 0.24's private API it was written against,
+    including `mean_squared_error(squared=False)` = RMSE per output column, then averaged)"""
     global _FMOD
     if _FMOD is None:
         import sktime.performance_metrics.forecasting._functions as F
-        from sklearn.metrics import mean_squared_error as mse17, root_mean_squared_error as rmse17
-
-        def _mse_024(y_true, y_pred, *, sample_weight=None, multioutput="uniform_average", squared=True):
-            f = mse17 if squared else rmse17
-            return f(y_true, y_pred, sample_weight=sample_weight, multioutput=multioutput)
-        F._mean_squared_error = _mse_024
         _FMOD = F
     return _FMOD
 
@@ -528,7 +521,7 @@ def oracle(c, real_out):
     # zero for a perfect forecast (geometric means: machine-epsilon floor)
     if c["yt"] == c["yp"]:
         if m in GM:
-            floor = math.sqrt(FEPS) if c["sqrt"] else FEPS
+            floor = math.sqrt(FEPS) if (m == "gmrse" and c["sqrt"]) else FEPS
             if not all(relclose(v, floor, 1e-9) for v in vals):
                 fails.append((_key(c, "perfect-floor"), "perfect forecast returned %s, floor is %r" % (main, floor)))
         elif any(v != 0 for v in vals):
